@@ -121,7 +121,7 @@ def ground_axioms(formulas, depth=1):
     # syntactically different but equal arguments (bw - 0, 0 + bw, ...) denote the same power
     canon = {}
     for t in ts:
-        k = z3.simplify(t, sort_sums=True).get_id()
+        k = z3.simplify(t, sort_sums=True).sexpr()     # (ids of temporaries are recycled: key by text)
         if k in canon:
             ax.append(pow2(t) == pow2(canon[k]))
         else:
@@ -143,10 +143,10 @@ def ground_axioms(formulas, depth=1):
         # pow2(u + v) == pow2(u) * pow2(v) (incl. u == v) for terms of the query   [lean/PyInt.lean: pow_add]
         byid = {}
         for t in orig:
-            byid.setdefault(z3.simplify(t, sort_sums=True).get_id(), t)
+            byid.setdefault(z3.simplify(t, sort_sums=True).sexpr(), t)
         for i, a in enumerate(orig):
             for b in orig[i:]:
-                c = byid.get(z3.simplify(a + b, sort_sums=True).get_id())
+                c = byid.get(z3.simplify(a + b, sort_sums=True).sexpr())
                 if c is not None and c.get_id() not in (a.get_id(), b.get_id()):
                     ax.append(z3.Implies(z3.And(a >= 0, b >= 0), pow2(c) == pow2(a) * pow2(b)))
     # x % pow2(t): range, and identity on [0, pow2(t))
